@@ -59,7 +59,7 @@ class SimDeadlock(RuntimeError):
     pass
 
 
-DEFAULT_SCHED = {"dur": [1.0], "lat": [0.0], "slow": {}, "stall": [], "tie": [0], "chunk": "default", "advance": 0, "tslice": [1000000], "tmo": [1]}
+DEFAULT_SCHED = {"dur": [1.0], "lat": [0.0], "slow": {}, "stall": [], "tie": [0], "chunk": "default", "advance": 0, "tslice": [1000000], "tmo": [1], "fail": []}
 
 
 class Kernel(object):
@@ -82,6 +82,8 @@ class Kernel(object):
         self.maps = []               # per map call: dict(n_workers, chunks, completion order)
         self.events_run = 0
         self.tmo_counter = 0
+        self.task_counter = 0
+        self.failed_tasks = 0
         self.threads_in_flight = []  # tasks of thread pools whose bodies have not finished
         self.tslice_counter = 0
 
@@ -96,6 +98,7 @@ class Kernel(object):
         self.mode = mode
         self.item_counter = 0
         self.tie_counter = 0
+        self.task_counter = 0
 
     def __enter__(self):
         if _ACTIVE[0] is not None:
@@ -577,6 +580,16 @@ class SimPool(object):
             if k.res is not None:
                 k.res.count("fault.slow_worker_task")
         task.duration = dur
+        k.task_counter += 1
+        if (k.task_counter - 1) in [int(x) for x in (k.sched.get("fail") or [])]:
+            # injected fault: this task dies of a failed allocation inside the worker
+            task.outcome = (False, MemoryError("injected: worker could not allocate"))
+            k.failed_tasks += 1
+            if k.res is not None:
+                k.res.count("fault.task_raised_MemoryError")
+            self._busy[w] = task
+            k.push(k.now + dur, "done", self, task)
+            return True
         # the task body runs when the DES starts it
         if self._flavour == "thread":
             # threads: no pickle boundary, shared memory; the body runs interleaved with the other tasks in flight
